@@ -15,6 +15,7 @@ import (
 	"path/filepath"
 	"runtime"
 	"sort"
+	"strings"
 	"sync"
 	"testing"
 	"time"
@@ -49,6 +50,7 @@ type vfC12Case struct {
 
 // a target parses data; it returns whether the input got past the first validation stage
 type vfC12Target struct {
+	varints func(w *vfC12World, seed []byte) []int // offsets of length varints in a valid seed
 	name  string
 	seeds func(w *vfC12World) [][]byte
 	run   func(w *vfC12World, data []byte) (deep bool)
@@ -81,6 +83,10 @@ func vfC12setup() (*vfC12World, error) {
 	vfC12once.Do(func() {
 		w := &vfC12World{dir: vfh.TmpDir("c12"), files: map[string][]byte{}, nodes: map[int][][]byte{}}
 		spec := vfC08specs()[2]
+		// one transaction with many frames and a wide fan-out (next lists of up to 10 links)
+		spec.Blocks[0].Entries[0].Txs[0].MetaSize = 3000
+		spec.Blocks[0].Entries[0].Txs[0].MetaFrames = 23
+		spec.Blocks[0].Entries[0].Txs[0].Fanout = 10
 		ep, err := cargen.Build(spec)
 		if err != nil {
 			vfC12err = err
@@ -106,7 +112,7 @@ func vfC12setup() (*vfC12World, error) {
 		}
 		for i := range ep.Objects {
 			o := &ep.Objects[i]
-			if len(w.nodes[o.Kind]) < 6 {
+			if len(w.nodes[o.Kind]) < 6 || (o.Kind == 6 && len(w.nodes[o.Kind]) < 30) {
 				w.nodes[o.Kind] = append(w.nodes[o.Kind], o.Data)
 			}
 		}
@@ -230,7 +236,13 @@ var vfC12Targets = []vfC12Target{
 		})
 		return true
 	}},
-	{name: "carreader", seeds: vfFileSeed("car"), run: func(w *vfC12World, d []byte) bool {
+	{name: "carreader", seeds: vfFileSeed("car"), varints: func(w *vfC12World, seed []byte) []int {
+		out := []int{0}
+		for i := range w.ep.Objects {
+			out = append(out, int(w.ep.Objects[i].Offset))
+		}
+		return out
+	}, run: func(w *vfC12World, d []byte) bool {
 		rd, err := carreader.New(io.NopCloser(bytes.NewReader(d)))
 		if err != nil {
 			return false
@@ -258,7 +270,7 @@ var vfC12Targets = []vfC12Target{
 			out = append(out, w.files["car"][o.Offset:o.Offset+o.SectionLen])
 		}
 		return out
-	}, run: func(w *vfC12World, d []byte) bool {
+	}, varints: func(w *vfC12World, seed []byte) []int { return []int{0} }, run: func(w *vfC12World, d []byte) bool {
 		_, err := parseNodeFromSection(d, nil)
 		c := w.ep.Objects[0].Cid
 		parseNodeFromSection(d, &c)
@@ -357,7 +369,7 @@ var vfC12Targets = []vfC12Target{
 		idx.Epoch()
 		return true
 	}},
-	{name: "linkedlog", seeds: vfFileSeed("linkedlog"), run: func(w *vfC12World, d []byte) bool {
+	{name: "linkedlog", seeds: vfFileSeed("linkedlog"), varints: func(w *vfC12World, seed []byte) []int { return []int{0} }, run: func(w *vfC12World, d []byte) bool {
 		p := filepath.Join(w.dir, fmt.Sprintf("ll-%d", time.Now().UnixNano()))
 		os.WriteFile(p, d, 0o644)
 		defer os.Remove(p)
@@ -490,9 +502,15 @@ var vfCborHeadBytes = []byte{0x00, 0x17, 0x18, 0x19, 0x1a, 0x1b, 0x20, 0x3b, 0x4
 // vfC12mutate derives a hostile input from a valid seed.
 func vfC12mutate(t *rapid.T, tg *vfC12Target, seed []byte) ([]byte, string) {
 	d := append([]byte{}, seed...)
-	how := rapid.SampledFrom([]string{"field", "field", "field2", "truncate", "cbor-head", "cbor-head", "flip", "random", "extend", "empty-or-tiny", "valid"}).Draw(t, "how")
+	how := rapid.SampledFrom([]string{"field", "field", "field2", "truncate", "cbor-head", "cbor-head", "flip", "random", "extend", "empty-or-tiny", "valid", "varint", "cbor-int", "cbor-len"}).Draw(t, "how")
+	if !tg.cbor && (how == "cbor-int" || how == "cbor-len") {
+		how = "field"
+	}
 	if !tg.cbor && how == "cbor-head" {
 		how = "field"
+	}
+	if how == "varint" && tg.varints == nil {
+		how = "field2"
 	}
 	pos := func(label string) int {
 		if len(d) == 0 {
@@ -531,7 +549,72 @@ func vfC12mutate(t *rapid.T, tg *vfC12Target, seed []byte) ([]byte, string) {
 			d[p+i] = b[i]
 		}
 	}
+	// re-encode one CBOR item head (major type kept) with another argument value
+	recode := func(p int, v uint64) {
+		major := d[p] & 0xe0
+		info := d[p] & 0x1f
+		oldLen := 1
+		switch info {
+		case 24:
+			oldLen = 2
+		case 25:
+			oldLen = 3
+		case 26:
+			oldLen = 5
+		case 27:
+			oldLen = 9
+		}
+		var enc []byte
+		switch {
+		case v < 24:
+			enc = []byte{major | byte(v)}
+		case v < 1<<8:
+			enc = []byte{major | 24, byte(v)}
+		case v < 1<<16:
+			enc = []byte{major | 25, byte(v >> 8), byte(v)}
+		case v < 1<<32:
+			enc = []byte{major | 26, byte(v >> 24), byte(v >> 16), byte(v >> 8), byte(v)}
+		default:
+			enc = []byte{major | 27, byte(v >> 56), byte(v >> 48), byte(v >> 40), byte(v >> 32), byte(v >> 24), byte(v >> 16), byte(v >> 8), byte(v)}
+		}
+		if p+oldLen > len(d) {
+			return
+		}
+		d = append(append(append([]byte{}, d[:p]...), enc...), d[p+oldLen:]...)
+	}
 	switch how {
+	case "cbor-int", "cbor-len":
+		var cand []int
+		for _, h := range vfCborHeads(d) {
+			mj := d[h] >> 5
+			if (how == "cbor-int" && mj <= 1) || (how == "cbor-len" && (mj == 2 || mj == 4 || mj == 5)) {
+				cand = append(cand, h)
+			}
+		}
+		if len(cand) > 0 {
+			p := cand[rapid.IntRange(0, len(cand)-1).Draw(t, "item")]
+			if how == "cbor-int" {
+				if rapid.Bool().Draw(t, "negate") {
+					d[p] = (d[p] & 0x1f) | (((d[p] >> 5) ^ 1) << 5) // unsigned <-> negative
+				}
+				recode(p, rapid.SampledFrom(vfHostile64).Draw(t, "intVal"))
+			} else {
+				recode(p, rapid.SampledFrom([]uint64{0, 1, 2, 3, 5, 6, 7, 23, 24, 255, 256, 65536, 1 << 24, 1<<32 - 1, 1 << 40, 1<<63 - 1}).Draw(t, "lenVal"))
+			}
+		}
+	case "varint":
+		// overwrite a length varint of the format with a hostile value
+		offs := tg.varints(vfC12world, seed)
+		off := offs[rapid.IntRange(0, len(offs)-1).Draw(t, "varintAt")]
+		v := rapid.SampledFrom([]uint64{0, 1, 35, 36, 37, 127, 128, 16383, 16384, 1 << 21, 32 << 20, 32<<20 + 1, 1 << 31, 1 << 32, 1 << 40, 1<<63 - 1, ^uint64(0)}).Draw(t, "varintVal")
+		if off < len(d) {
+			_, n := binary.Uvarint(d[off:])
+			if n < 0 {
+				n = 0
+			}
+			enc := binary.AppendUvarint(nil, v)
+			d = append(append(append([]byte{}, d[:off]...), enc...), d[min(len(d), off+n):]...)
+		}
 	case "field":
 		setField("f")
 	case "field2":
@@ -671,6 +754,10 @@ func TestVfC12(t *testing.T) {
 		c := &vfC12Case{Target: tg.name, Data: data, How: how}
 		run.SetLast(c)
 		out, err := vfC12exec(w, tg, data)
+		if err != nil && strings.Contains(err.Error(), "did not return within") {
+			// the parser is still running in its goroutine and cannot be stopped: report and leave
+			run.Abort(c, fmt.Sprintf("C12 violated: target %s (%s mutation, %d bytes): %v", tg.name, how, len(data), err))
+		}
 		cls := []string{"target:" + tg.name, "how:" + how}
 		if out.deep {
 			cls = append(cls, "deep:"+tg.name)
